@@ -7,6 +7,7 @@ import (
 	"math"
 	"os"
 	"path/filepath"
+	"regexp"
 	"strconv"
 	"strings"
 	"sync/atomic"
@@ -104,13 +105,29 @@ var hugeOffsets = []int{math.MaxInt64, math.MaxInt64 - 1, -math.MaxInt64, -math.
 
 func isHuge(n int) bool { return n > 1<<30 || n < -(1<<30) }
 
+// float literals beyond the 64-bit integer range (the first: 2^63 exactly, the smallest such value)
+var hugeFloats = []string{"9223372036854775808.0", "1e19", "1e30", "9.3e18", "1.5e300", "-9223372036854775809.0", "-1e19", "-1e30", "-9.3e18", "-1.5e300"}
+
+// spell renders a cursor name: identifiers are case-insensitive and may be enclosed in grave accents.
+func spell(cur string, sp int) string {
+	switch sp {
+	case 1:
+		return strings.ToUpper(cur)
+	case 2:
+		return "`" + cur + "`"
+	case 3:
+		return "`" + strings.ToUpper(cur) + "`"
+	}
+	return cur
+}
+
 type row struct {
 	ID int    `json:"id"`
 	V  string `json:"v"`
 }
 
 type opT struct {
-	K         string `json:"k"`                    // declare open fetch loopfetch close dispose while shadowloop status dml alter mku rmu alloc dispvar commit rollback setvar
+	K         string `json:"k"`                    // declare open fetch loopfetch close dispose while shadowloop status show checkheld dml alter mku rmu alloc dispvar commit rollback setvar
 	Cur       string `json:"cur,omitempty"`        // c1 | c2
 	Q         int    `json:"q,omitempty"`          // declare: index into queries / prepared
 	Prep      bool   `json:"prep,omitempty"`       // declare: cursor for prepared statement s<Q>
@@ -132,6 +149,9 @@ type opT struct {
 	Print     bool   `json:"print,omitempty"`      // status: PRINT instead of SELECT
 	ID        int    `json:"id,omitempty"`         // dml
 	Tag       int    `json:"tag,omitempty"`        // dml
+	Sp        int    `json:"sp,omitempty"`         // spelling of the cursor name in this statement: 0 c1, 1 C1, 2 `c1`, 3 `C1` (character case of identifiers is insensitive)
+	Into      string `json:"into,omitempty"`       // fetch: "" INTO @a, @b; "h" INTO @ha, @hb (holder variables that only such fetches assign; "checkheld" reads them back later)
+	FOff      string `json:"foff,omitempty"`       // fetch ABSOLUTE/RELATIVE: the offset is this float literal whose magnitude exceeds the integer range (N holds the saturated integer)
 }
 
 type histCase struct {
@@ -230,8 +250,19 @@ func genFetch(t *rapid.T, cur string, g *gcur) opT {
 			// offsets near the ends of the integer range: the addressed position does not exist, the pointer
 			// goes beyond that end of the view (a sum with the pointer must not wrap around)
 			o.N = hugeOffsets[uni(t, "hugen", 0, len(hugeOffsets)-1)]
+			if chance(t, "hugefloat", 40) {
+				// the same written as a float literal beyond the integer range: refused, or beyond that end of the view
+				o.FOff = hugeFloats[uni(t, "hugef", 0, len(hugeFloats)-1)]
+				o.N = math.MaxInt64
+				if o.FOff[0] == '-' {
+					o.N = -math.MaxInt64
+				}
+			}
 			return o
 		}
+	}
+	if chance(t, "hold", 12) {
+		o.Into = "h"
 	}
 	if o.Pos == "ABSOLUTE" || o.Pos == "RELATIVE" {
 		// the offset as a literal, a variable (also one filled by an earlier FETCH) or a small expression
@@ -381,6 +412,13 @@ func genCase(t *rapid.T) histCase {
 		return o
 	}
 
+	// every statement spells the cursor name on its own: as declared, in the other case, enclosed in grave accents
+	respell := func(o opT) opT {
+		if o.Cur != "" && chance(t, "respell", 30) {
+			o.Sp = uni(t, "spelling", 1, 3)
+		}
+		return o
+	}
 	var pending []opT
 	for step := 0; len(c.Ops) < nops || (len(pending) > 0 && len(c.Ops) < nops+6); step++ {
 		if len(pending) > 0 {
@@ -390,7 +428,7 @@ func genCase(t *rapid.T) histCase {
 				o = genDML(step)
 			}
 			apply(o)
-			c.Ops = append(c.Ops, o)
+			c.Ops = append(c.Ops, respell(o))
 			continue
 		}
 		name := "c1"
@@ -401,11 +439,11 @@ func genCase(t *rapid.T) histCase {
 		var kind string
 		switch {
 		case !g.declared:
-			kind = weighted(t, "k_undeclared", []wt{{"declare", 72}, {"open", 5}, {"fetch", 5}, {"close", 3}, {"dispose", 3}, {"status", 6}, {"while", 3}, {"dml", 2}, {"loopfetch", 1}, {"shadowloop", 3}})
+			kind = weighted(t, "k_undeclared", []wt{{"declare", 72}, {"open", 5}, {"fetch", 5}, {"close", 3}, {"dispose", 3}, {"status", 6}, {"while", 3}, {"dml", 2}, {"loopfetch", 1}, {"shadowloop", 3}, {"show", 3}, {"checkheld", 1}})
 		case !g.open:
-			kind = weighted(t, "k_closed", []wt{{"open", 55}, {"fetch", 6}, {"status", 9}, {"while", 3}, {"dispose", 4}, {"close", 3}, {"declare", 2}, {"dml", 7}, {"setvar", 4}, {"commit", 1}, {"rollback", 1}, {"alter", 2}, {"mku", 1}, {"rmu", 1}, {"loopfetch", 1}, {"shadowloop", 3}})
+			kind = weighted(t, "k_closed", []wt{{"open", 55}, {"fetch", 6}, {"status", 9}, {"while", 3}, {"dispose", 4}, {"close", 3}, {"declare", 2}, {"dml", 7}, {"setvar", 4}, {"commit", 1}, {"rollback", 1}, {"alter", 2}, {"mku", 1}, {"rmu", 1}, {"loopfetch", 1}, {"shadowloop", 3}, {"show", 4}, {"checkheld", 2}})
 		default:
-			kind = weighted(t, "k_open", []wt{{"fetch", 40}, {"dml", 15}, {"status", 9}, {"while", 8}, {"close", 5}, {"open", 3}, {"commit", 2}, {"rollback", 3}, {"dispose", 2}, {"declare", 1}, {"setvar", 2}, {"alloc", 6}, {"loopfetch", 4}, {"alter", 1}, {"mku", 1}, {"shadowloop", 3}, {"dispvar", 3}})
+			kind = weighted(t, "k_open", []wt{{"fetch", 40}, {"dml", 15}, {"status", 9}, {"while", 8}, {"close", 5}, {"open", 3}, {"commit", 2}, {"rollback", 3}, {"dispose", 2}, {"declare", 1}, {"setvar", 2}, {"alloc", 6}, {"loopfetch", 4}, {"alter", 1}, {"mku", 1}, {"shadowloop", 3}, {"dispvar", 3}, {"show", 4}, {"checkheld", 2}})
 		}
 		var o opT
 		switch kind {
@@ -462,7 +500,25 @@ func genCase(t *rapid.T) histCase {
 			}
 		case "fetch":
 			o = genFetch(t, name, g)
-			if g.open && o.NVars == 2 && chance(t, "dispburst", 10) {
+			if g.open && o.NVars == 2 && o.Into == "h" && chance(t, "holdburst", 70) {
+				// the holder variables now (probably) hold a row of the snapshot: the cursor goes on, is closed, disposed or
+				// opened anew, the table changes, values are created - then the variables are read back
+				switch weighted(t, "holdthen", []wt{{"close", 25}, {"dispose", 15}, {"reopen", 20}, {"move", 15}, {"dml", 10}, {"closealloc", 15}}) {
+				case "close":
+					pending = append(pending, opT{K: "close", Cur: name})
+				case "dispose":
+					pending = append(pending, opT{K: "dispose", Cur: name})
+				case "reopen":
+					pending = append(pending, opT{K: "close", Cur: name}, opT{K: "dml"}, genOpen(name, g))
+				case "move":
+					pending = append(pending, opT{K: "fetch", Cur: name, NVars: 2, Pos: []string{"NEXT", "PRIOR", "LAST", "FIRST"}[uni(t, "holdmove", 0, 3)]})
+				case "dml":
+					pending = append(pending, opT{K: "dml"})
+				default:
+					pending = append(pending, opT{K: "close", Cur: name}, opT{K: "alloc", What: "str"}, opT{K: "alloc", What: []string{"strsel", "print", "mix", "sel"}[uni(t, "holdalloc", 0, 3)]})
+				}
+				pending = append(pending, opT{K: "checkheld"})
+			} else if g.open && o.NVars == 2 && o.Into == "" && chance(t, "dispburst", 10) {
 				// the variables now (probably) hold the value objects of a snapshot row: dispose them, create
 				// values of the same types and read the same row again
 				pending = append(pending, opT{K: "dispvar", What: weighted(t, "dispwhat", []wt{{"both", 40}, {"a", 20}, {"b", 20}, {"o", 20}})},
@@ -485,6 +541,8 @@ func genCase(t *rapid.T) histCase {
 			o = opT{K: "shadowloop", Cur: name, At: uni(t, "shadowat", 1, 4), Q: []int{0, 1, 2, 3, 4, 5, 6, 7, 12, 13}[uni(t, "shadowq", 0, 9)]}
 		case "dispvar":
 			o = opT{K: "dispvar", What: weighted(t, "dispwhat", []wt{{"both", 40}, {"a", 20}, {"b", 20}, {"o", 20}})}
+		case "show", "checkheld":
+			o = opT{K: kind}
 		case "loopfetch":
 			o = genLoopFetch(t, name, g)
 		case "close":
@@ -518,7 +576,7 @@ func genCase(t *rapid.T) histCase {
 			o = opT{K: "setvar", N: uni(t, "limv", 0, 6)}
 		}
 		apply(o)
-		c.Ops = append(c.Ops, o)
+		c.Ops = append(c.Ops, respell(o))
 	}
 	return c
 }
@@ -550,6 +608,7 @@ type curM struct {
 	dml         int // data changes on t since OPEN
 	failedOpens int // OPENs that failed with their query since the last successful one
 	lastOpen    opT // the OPEN that produced the snapshot
+	life        int // number of the successful OPEN that produced the snapshot
 }
 
 func (m *curM) ln() int { return len(m.snap) }
@@ -679,13 +738,22 @@ func (e *env) tail() string {
 	return "\n    " + strings.Join(t, "\n    ")
 }
 
-func (e *env) readVars() ([]val.Val, error) {
-	r := e.exec("SELECT @a, @b;")
+// intoVars: the two variables a FETCH of the history fills ("" @a, @b; "h" the holder variables @ha, @hb).
+func intoVars(into string) (string, string) {
+	if into == "h" {
+		return "@ha", "@hb"
+	}
+	return "@a", "@b"
+}
+
+func (e *env) readVars(into string) ([]val.Val, error) {
+	va, vb := intoVars(into)
+	r := e.exec("SELECT " + va + ", " + vb + ";")
 	if r.Err != nil {
 		return nil, r.Err
 	}
 	if len(r.Views) != 1 || len(r.Views[0].Rows) != 1 {
-		return nil, fmt.Errorf("unexpected shape of SELECT @a, @b")
+		return nil, fmt.Errorf("unexpected shape of SELECT %s, %s", va, vb)
 	}
 	return r.Views[0].Rows[0], nil
 }
@@ -763,7 +831,8 @@ func dmlSQL(o opT) string {
 
 // fetchSQL renders a FETCH; operand is the text of the ABSOLUTE/RELATIVE offset ("" = the literal N).
 func fetchSQL(o opT, operand string) string {
-	vars := []string{"@a", "@b", "@n"}[:o.NVars]
+	va, vb := intoVars(o.Into)
+	vars := []string{va, vb, "@n"}[:o.NVars]
 	pos := o.Pos
 	switch o.Pos {
 	case "ABSOLUTE", "RELATIVE":
@@ -775,7 +844,7 @@ func fetchSQL(o opT, operand string) string {
 	if pos != "" {
 		pos += " "
 	}
-	return fmt.Sprintf("FETCH %s%s INTO %s;", pos, o.Cur, strings.Join(vars, ", "))
+	return fmt.Sprintf("FETCH %s%s INTO %s;", pos, spell(o.Cur, o.Sp), strings.Join(vars, ", "))
 }
 
 func posName(p string) string {
@@ -783,6 +852,59 @@ func posName(p string) string {
 		return "NEXT"
 	}
 	return p
+}
+
+// what SHOW CURSORS says about one cursor
+type showEnt struct {
+	open bool
+	rows int
+	ptr  string // UNKNOWN | Out of Range | the position
+}
+
+var showOpenRe = regexp.MustCompile(`Status: Open\s+Number of Rows: ([0-9,]+)\s+Pointer: (UNKNOWN|Out of Range|-?[0-9,]+)\s*$`)
+
+// parseShowCursors reads the list printed by SHOW CURSORS: per cursor a line with the name (one leading space)
+// followed by "Status: Closed" or "Status: Open    Number of Rows: n    Pointer: p"; keys are upper-cased names.
+func parseShowCursors(out string) (map[string]showEnt, error) {
+	res := map[string]showEnt{}
+	if strings.Contains(out, "No cursor is declared") {
+		return res, nil
+	}
+	cur, pending := "", false
+	for _, l := range strings.Split(out, "\n") {
+		switch {
+		case len(l) > 1 && l[0] == ' ' && l[1] != ' ':
+			if pending {
+				return nil, fmt.Errorf("no status line for %s", cur)
+			}
+			cur = strings.ToUpper(strings.TrimSpace(l))
+			if _, dup := res[cur]; dup {
+				return nil, fmt.Errorf("%s is listed twice", cur)
+			}
+			pending = true
+		case pending && strings.Contains(l, "Status: Closed"):
+			res[cur] = showEnt{}
+			pending = false
+		case pending && strings.Contains(l, "Status: Open"):
+			mm := showOpenRe.FindStringSubmatch(l)
+			if mm == nil {
+				return nil, fmt.Errorf("status line %q", l)
+			}
+			n, err := strconv.Atoi(strings.ReplaceAll(mm[1], ",", ""))
+			if err != nil {
+				return nil, err
+			}
+			res[cur] = showEnt{open: true, rows: n, ptr: mm[2]}
+			pending = false
+		}
+	}
+	if pending {
+		return nil, fmt.Errorf("no status line for %s", cur)
+	}
+	if len(res) == 0 {
+		return nil, fmt.Errorf("no cursor found in the list")
+	}
+	return res, nil
 }
 
 func checkHist(c histCase) (fw.Outcome, *fw.Violation) {
@@ -820,7 +942,7 @@ func checkHist(c histCase) (fw.Outcome, *fw.Violation) {
 		}
 		setup = append(setup, "COMMIT;")
 	}
-	setup = append(setup, fmt.Sprintf("VAR @a, @b, @n, @k := 0, @o, @p, @q, @s, @lim := %d;", c.Lim))
+	setup = append(setup, fmt.Sprintf("VAR @a, @b, @ha, @hb, @n, @k := 0, @o, @p, @q, @s, @lim := %d;", c.Lim))
 	for i, p := range prepared {
 		setup = append(setup, fmt.Sprintf("PREPARE s%d FROM %s;", i, val.QuoteSQL(p)))
 	}
@@ -837,7 +959,8 @@ func checkHist(c histCase) (fw.Outcome, *fw.Violation) {
 			toks = append(toks, s)
 		}
 	}
-	nontrivDML, nontrivExc := false, false
+	nontrivDML, nontrivExc, nontrivHeld := false, false, false
+	lifeSeq := 0
 	dirty := false
 	dataChanged := func() {
 		for _, m := range curs {
@@ -860,9 +983,20 @@ func checkHist(c histCase) (fw.Outcome, *fw.Violation) {
 		}
 		return nil
 	}
+	// the holder variables @ha, @hb: what they were last seen to hold, which cursor filled them and in which of its
+	// lives (a cursor's life ends with CLOSE / DISPOSE)
+	held := []val.Val{val.Null, val.Null}
+	heldCur, heldLife := "", 0
+	readVars := func(into string) ([]val.Val, error) {
+		obs, err := e.readVars(into)
+		if err == nil && into == "h" {
+			held = obs
+		}
+		return obs, err
+	}
 	// after a statement that must not deliver data: the variables still hold the sentinel (or NULL)
-	noData := func(stmt, sig string) *fw.Violation {
-		obs, err := e.readVars()
+	noData := func(stmt, sig, into string) *fw.Violation {
+		obs, err := readVars(into)
 		if err != nil {
 			return fw.Harness("%v%s", err, e.tail())
 		}
@@ -880,7 +1014,7 @@ func checkHist(c histCase) (fw.Outcome, *fw.Violation) {
 			if kind == "" {
 				kind = "column"
 			}
-			return fmt.Sprintf("OPEN %s;", op.Cur), queries[m.decl.Q] + ";", "", kind
+			return fmt.Sprintf("OPEN %s;", spell(op.Cur, op.Sp)), queries[m.decl.Q] + ";", "", kind
 		}
 		using := fmt.Sprintf(" USING %d", op.Using)
 		kind = "column"
@@ -896,11 +1030,15 @@ func checkHist(c histCase) (fw.Outcome, *fw.Violation) {
 				kind = "into"
 			}
 		}
-		return fmt.Sprintf("OPEN %s%s;", op.Cur, using), fmt.Sprintf("EXECUTE s%d%s;", m.decl.Q, using), rows, kind
+		return fmt.Sprintf("OPEN %s%s;", spell(op.Cur, op.Sp), using), fmt.Sprintf("EXECUTE s%d%s;", m.decl.Q, using), rows, kind
 	}
-	setSentinel := func() *fw.Violation {
-		if r := e.exec(fmt.Sprintf("@a := '%s'; @b := '%s';", sentinel, sentinel)); r.Err != nil {
+	setSentinel := func(into string) *fw.Violation {
+		va, vb := intoVars(into)
+		if r := e.exec(fmt.Sprintf("%s := '%s'; %s := '%s';", va, sentinel, vb, sentinel)); r.Err != nil {
 			return fw.Harness("%v%s", r.Err, e.tail())
+		}
+		if into == "h" {
+			held, heldCur = []val.Val{val.Str(sentinel), val.Str(sentinel)}, ""
 		}
 		return nil
 	}
@@ -908,6 +1046,9 @@ func checkHist(c histCase) (fw.Outcome, *fw.Violation) {
 	// is read from the session first: "ok" (an integer, n), "bad" (not a number: the FETCH must fail) or
 	// "skip" (a float: the conversion is not documented, the operation is left out).
 	resolveOffset := func(op opT) (operand string, n int, kind string, v *fw.Violation) {
+		if (op.Pos == "ABSOLUTE" || op.Pos == "RELATIVE") && op.FOff != "" {
+			return op.FOff, op.N, "ok", nil
+		}
 		if (op.Pos != "ABSOLUTE" && op.Pos != "RELATIVE") || op.Off == "" {
 			return "", op.N, "ok", nil
 		}
@@ -948,16 +1089,22 @@ func checkHist(c histCase) (fw.Outcome, *fw.Violation) {
 		return operand, 0, "skip", nil
 	}
 	// fetchChecked runs a two-variable FETCH on an open cursor and narrows the pointer set.
+	refused := false // set by fetchChecked: the FETCH was refused with "not an integer value" (admitted for float offsets only)
 	fetchChecked := func(m *curM, op opT, operand string) (bool, *fw.Violation) {
-		if v := setSentinel(); v != nil {
+		refused = false
+		if v := setSentinel(op.Into); v != nil {
 			return false, v
 		}
 		stmt := fetchSQL(op, operand)
 		r := e.exec(stmt)
+		if r.Err != nil && op.FOff != "" && errNum(r.Err) == errFetchPos {
+			refused = true
+			return false, noData(stmt, "fetch_refused_offset", op.Into)
+		}
 		if r.Err != nil {
 			return false, fw.V("fetch_open_cursor_error", "%s on an open cursor failed: %s %v%s", stmt, run.ErrClass(r.Err), r.Err, e.tail())
 		}
-		obs, err := e.readVars()
+		obs, err := readVars(op.Into)
 		if err != nil {
 			return false, fw.Harness("%v%s", err, e.tail())
 		}
@@ -1002,15 +1149,38 @@ func checkHist(c histCase) (fw.Outcome, *fw.Violation) {
 		return m.inRange(keep[0]), nil
 	}
 
+	// checkHeld: the holder variables still hold what the last FETCH into them delivered, whatever happened to the
+	// cursor, the table and the value pool since
+	checkHeld := func(when string) *fw.Violation {
+		want, from := held, heldCur
+		r := e.exec("SELECT @ha, @hb;")
+		if r.Err != nil || len(r.Views) != 1 || len(r.Views[0].Rows) != 1 {
+			return fw.Harness("reading the holder variables: %v%s", r.Err, e.tail())
+		}
+		if got := r.Views[0].Rows[0]; !rowEq(want, got) {
+			return fw.V("fetched_values_lost", "@ha, @hb hold %s %s; the last FETCH ... INTO @ha, @hb (cursor %q) left %s in them and nothing has assigned them since%s", rowStr(got), when, from, rowStr(want), e.tail())
+		}
+		if from != "" {
+			if hm := curs[from]; !hm.declared || !hm.open || hm.life != heldLife {
+				nontrivHeld = true
+				class("held:read_after_cursor_closed")
+			} else {
+				class("held:read_cursor_open")
+			}
+		}
+		return nil
+	}
+
 	for _, op := range c.Ops {
 		m := curs[op.Cur]
+		cn := spell(op.Cur, op.Sp) // the cursor name as this statement spells it
 		switch op.K {
 		case "declare":
 			var stmt string
 			if op.Prep {
-				stmt = fmt.Sprintf("DECLARE %s CURSOR FOR s%d;", op.Cur, op.Q)
+				stmt = fmt.Sprintf("DECLARE %s CURSOR FOR s%d;", cn, op.Q)
 			} else {
-				stmt = fmt.Sprintf("DECLARE %s CURSOR FOR %s;", op.Cur, queries[op.Q])
+				stmt = fmt.Sprintf("DECLARE %s CURSOR FOR %s;", cn, queries[op.Q])
 			}
 			r := e.exec(stmt)
 			if m.declared {
@@ -1039,7 +1209,7 @@ func checkHist(c histCase) (fw.Outcome, *fw.Violation) {
 			tok("D")
 
 		case "open":
-			stmt, ref, rowsStmt, failKind := fmt.Sprintf("OPEN %s;", op.Cur), "", "", ""
+			stmt, ref, rowsStmt, failKind := fmt.Sprintf("OPEN %s;", cn), "", "", ""
 			if m.declared {
 				stmt, ref, rowsStmt, failKind = openTexts(m, op)
 			}
@@ -1080,7 +1250,7 @@ func checkHist(c histCase) (fw.Outcome, *fw.Violation) {
 				if r.Err != nil {
 					// the OPEN failed with its query: the cursor is still closed (the following operations go on
 					// probing that: FETCH/COUNT/IS IN RANGE must raise "closed", a later OPEN must work)
-					pr := e.exec("SELECT CURSOR " + op.Cur + " IS OPEN;")
+					pr := e.exec("SELECT CURSOR " + cn + " IS OPEN;")
 					if pr.Err != nil || len(pr.Views) != 1 || len(pr.Views[0].Rows) != 1 {
 						return o, fw.V("status_open_error", "IS OPEN after a failed OPEN: %v%s", pr.Err, e.tail())
 					}
@@ -1101,6 +1271,8 @@ func checkHist(c histCase) (fw.Outcome, *fw.Violation) {
 				}
 				m.open = true
 				m.lastOpen = op
+				lifeSeq++
+				m.life = lifeSeq
 				m.snap = rr.Views[0].Rows
 				m.ptrs = []int{-1}
 				m.fetched = fNo
@@ -1131,7 +1303,7 @@ func checkHist(c histCase) (fw.Outcome, *fw.Violation) {
 			if offKind == "bad" {
 				// the offset is not a number (a string fetched earlier, NULL, the sentinel): documented as an
 				// integer, so the FETCH must fail, whatever the state of the cursor, and deliver nothing
-				if v := setSentinel(); v != nil {
+				if v := setSentinel(op.Into); v != nil {
 					return o, v
 				}
 				r := e.exec(stmt)
@@ -1144,7 +1316,7 @@ func checkHist(c histCase) (fw.Outcome, *fw.Violation) {
 				if en := errNum(r.Err); en != errFetchPos && !(en == errUndeclared && !m.declared) && !(en == errClosed && m.declared && !m.open) {
 					return o, fw.V("fetch_bad_offset_error_class", "%s: %s %v%s", stmt, run.ErrClass(r.Err), r.Err, e.tail())
 				}
-				if v := noData(stmt, "fetch_bad_offset"); v != nil {
+				if v := noData(stmt, "fetch_bad_offset", op.Into); v != nil {
 					return o, v
 				}
 				class("fetch:bad_offset")
@@ -1156,13 +1328,16 @@ func checkHist(c histCase) (fw.Outcome, *fw.Violation) {
 				if m.declared {
 					want, sig, cl = errClosed, "fetch_closed", "err:closed:fetch"
 				}
-				if v := setSentinel(); v != nil {
+				if v := setSentinel(op.Into); v != nil {
 					return o, v
 				}
-				if v := expectErr(e.exec(stmt), stmt, want, sig); v != nil {
+				r := e.exec(stmt)
+				if op.FOff != "" && r.Err != nil && errNum(r.Err) == errFetchPos {
+					class("fetch:huge_float_offset:refused") // as good as the undeclared / closed error
+				} else if v := expectErr(r, stmt, want, sig); v != nil {
 					return o, v
 				}
-				if v := noData(stmt, sig); v != nil {
+				if v := noData(stmt, sig, op.Into); v != nil {
 					return o, v
 				}
 				class(cl)
@@ -1172,7 +1347,7 @@ func checkHist(c histCase) (fw.Outcome, *fw.Violation) {
 			if op.NVars != 2 {
 				// wrong number of variables: documented as an error when a record is addressed; whether the
 				// pointer has moved by then is not documented, both are admitted.
-				if v := setSentinel(); v != nil {
+				if v := setSentinel(op.Into); v != nil {
 					return o, v
 				}
 				r := e.exec(stmt)
@@ -1192,7 +1367,7 @@ func checkHist(c histCase) (fw.Outcome, *fw.Violation) {
 				} else if r.Err != nil && errNum(r.Err) != errFetchLength {
 					return o, fw.V("fetch_length_error_class", "%s: %s %v%s", stmt, run.ErrClass(r.Err), r.Err, e.tail())
 				}
-				if v := noData(stmt, "fetch_length"); v != nil {
+				if v := noData(stmt, "fetch_length", op.Into); v != nil {
 					return o, v
 				}
 				m.ptrs = uniq(append(append([]int(nil), m.ptrs...), cands...))
@@ -1212,6 +1387,22 @@ func checkHist(c histCase) (fw.Outcome, *fw.Violation) {
 			in, v := fetchChecked(m, op, operand)
 			if v != nil {
 				return o, v
+			}
+			if refused {
+				// a float offset beyond the integer range refused as "not an integer value": nothing delivered, nothing moved
+				class("fetch:huge_float_offset:refused")
+				tok("F~")
+				continue
+			}
+			if op.FOff != "" {
+				class("fetch:huge_float_offset:beyond_the_end")
+			}
+			if op.Into == "h" {
+				heldCur = ""
+				if in {
+					heldCur, heldLife = op.Cur, m.life
+					class("hold:row")
+				}
 			}
 			res := "out"
 			if in {
@@ -1235,14 +1426,14 @@ func checkHist(c histCase) (fw.Outcome, *fw.Violation) {
 
 		case "loopfetch":
 			// the same FETCH statement text executed Reps times by a WHILE loop, integer arithmetic in between
-			if v := setSentinel(); v != nil {
+			if v := setSentinel(""); v != nil {
 				return o, v
 			}
 			if r := e.exec("@n := 0;"); r.Err != nil {
 				return o, fw.Harness("%v%s", r.Err, e.tail())
 			}
 			stmt := fmt.Sprintf("WHILE @n < %d DO %s PRINT @a; PRINT @b; @n := @n + 1; @k := (@k + 7) %% 5; END WHILE;",
-				op.Reps, fetchSQL(opT{Cur: op.Cur, Pos: op.Pos, N: op.N, NVars: 2}, ""))
+				op.Reps, fetchSQL(opT{Cur: op.Cur, Sp: op.Sp, Pos: op.Pos, N: op.N, NVars: 2}, ""))
 			e.s.Out.Reset()
 			r := e.exec(stmt)
 			got, perr := parsePrinted(e.s.Out.String())
@@ -1310,7 +1501,7 @@ func checkHist(c histCase) (fw.Outcome, *fw.Violation) {
 			tok("L")
 
 		case "close":
-			stmt := fmt.Sprintf("CLOSE %s;", op.Cur)
+			stmt := fmt.Sprintf("CLOSE %s;", cn)
 			r := e.exec(stmt)
 			switch {
 			case !m.declared:
@@ -1333,7 +1524,7 @@ func checkHist(c histCase) (fw.Outcome, *fw.Violation) {
 			}
 
 		case "dispose":
-			stmt := fmt.Sprintf("DISPOSE CURSOR %s;", op.Cur)
+			stmt := fmt.Sprintf("DISPOSE CURSOR %s;", cn)
 			r := e.exec(stmt)
 			switch {
 			case !m.declared:
@@ -1386,15 +1577,15 @@ func checkHist(c histCase) (fw.Outcome, *fw.Violation) {
 					class("left_out:pointer_open")
 					continue
 				}
-				action := "DISPOSE CURSOR " + op.Cur + ";"
+				action := "DISPOSE CURSOR " + cn + ";"
 				switch op.Act {
 				case "close":
-					action = "CLOSE " + op.Cur + ";"
+					action = "CLOSE " + cn + ";"
 				case "reopen":
-					action = "CLOSE " + op.Cur + "; OPEN " + op.Cur + ";"
+					action = "CLOSE " + cn + "; OPEN " + cn + ";"
 					if m.declared && m.open {
 						ostmt, ref, rowsStmt, _ := openTexts(m, m.lastOpen)
-						action = "CLOSE " + op.Cur + "; " + ostmt
+						action = "CLOSE " + cn + "; " + ostmt
 						// no statement of the loop changes a table: the result the re-OPEN will see
 						rr := e.exec(ref)
 						if rr.Err == nil && rowsStmt != "" {
@@ -1416,7 +1607,7 @@ func checkHist(c histCase) (fw.Outcome, *fw.Violation) {
 				}
 			}
 			// (results of a SELECT inside a loop are not stored by child processors: the loop prints)
-			stmt := fmt.Sprintf("WHILE %s%s, %s IN %s DO PRINT %s; PRINT %s;%s%s END WHILE;", decl, va, vb, op.Cur, va, vb, body, brk)
+			stmt := fmt.Sprintf("WHILE %s%s, %s IN %s DO PRINT %s; PRINT %s;%s%s END WHILE;", decl, va, vb, cn, va, vb, body, brk)
 			if r := e.exec("@n := 0;"); r.Err != nil {
 				return o, fw.Harness("%v%s", r.Err, e.tail())
 			}
@@ -1518,6 +1709,8 @@ func checkHist(c histCase) (fw.Outcome, *fw.Violation) {
 						class("while:reopen_in_body_failed")
 					}
 				default:
+					lifeSeq++
+					m.life = lifeSeq
 					m.snap = newSnap
 					m.dml = 0
 					m.ptrs = uniq([]int{len(newSnap) - 1, len(newSnap)})
@@ -1625,11 +1818,11 @@ func checkHist(c histCase) (fw.Outcome, *fw.Violation) {
 			var exprs []string
 			switch op.What {
 			case "open":
-				exprs = []string{"CURSOR " + op.Cur + " IS OPEN", "CURSOR " + op.Cur + " IS NOT OPEN"}
+				exprs = []string{"CURSOR " + cn + " IS OPEN", "CURSOR " + cn + " IS NOT OPEN"}
 			case "range":
-				exprs = []string{"CURSOR " + op.Cur + " IS IN RANGE", "CURSOR " + op.Cur + " IS NOT IN RANGE"}
+				exprs = []string{"CURSOR " + cn + " IS IN RANGE", "CURSOR " + cn + " IS NOT IN RANGE"}
 			default:
-				exprs = []string{"CURSOR " + op.Cur + " COUNT"}
+				exprs = []string{"CURSOR " + cn + " COUNT"}
 			}
 			var got []string
 			var firstErr error
@@ -1765,7 +1958,7 @@ func checkHist(c histCase) (fw.Outcome, *fw.Violation) {
 				return o, fw.Harness("%v%s", r.Err, e.tail())
 			}
 			stmt := fmt.Sprintf("IF TRUE THEN DECLARE %s CURSOR FOR %s; OPEN %s; WHILE @a, @b IN %s DO PRINT @a; PRINT @b; @n := @n + 1; IF @n == %d THEN DISPOSE CURSOR %s; END IF; END WHILE; END IF;",
-				op.Cur, queries[op.Q], op.Cur, op.Cur, op.At, op.Cur)
+				cn, queries[op.Q], op.Cur, cn, op.At, op.Cur)
 			e.s.Out.Reset()
 			r := e.exec(stmt)
 			got, perr := parsePrinted(e.s.Out.String())
@@ -1840,6 +2033,97 @@ func checkHist(c histCase) (fw.Outcome, *fw.Violation) {
 				class(cl)
 				tok("H")
 			}
+
+		case "checkheld":
+			if v := checkHeld("now"); v != nil {
+				return o, v
+			}
+			tok("K")
+
+		case "show":
+			// SHOW CURSORS lists every declared cursor with its status, the number of rows and the pointer
+			e.s.Out.Reset()
+			r := e.exec("SHOW CURSORS;")
+			out := e.s.Out.String()
+			e.trace[len(e.trace)-1] += fmt.Sprintf("   printed %q", out)
+			if r.Err != nil {
+				return o, fw.V("show_cursors_error", "SHOW CURSORS failed: %v%s", r.Err, e.tail())
+			}
+			listed, perr := parseShowCursors(out)
+			if perr != nil {
+				return o, fw.Harness("SHOW CURSORS: %v: %q%s", perr, out, e.tail())
+			}
+			for name := range listed {
+				if name != "C1" && name != "C2" {
+					return o, fw.V("show_cursors_lists_undeclared", "SHOW CURSORS lists a cursor %s that is not declared in this scope%s", name, e.tail())
+				}
+			}
+			for _, name := range []string{"c1", "c2"} {
+				cm := curs[name]
+				ent, ok := listed[strings.ToUpper(name)]
+				switch {
+				case !cm.declared && ok:
+					return o, fw.V("show_cursors_lists_undeclared", "SHOW CURSORS lists %s, which is not declared (never declared, or disposed)%s", name, e.tail())
+				case cm.declared && !ok:
+					return o, fw.V("show_cursors_missing", "SHOW CURSORS does not list the declared cursor %s%s", name, e.tail())
+				case !cm.declared:
+					class("show:undeclared")
+				case !cm.open:
+					if ent.open {
+						return o, fw.V("show_cursors_status", "SHOW CURSORS lists the closed cursor %s as open (%d rows, pointer %s)%s", name, ent.rows, ent.ptr, e.tail())
+					}
+					class("show:closed")
+				default:
+					if !ent.open {
+						return o, fw.V("show_cursors_status", "SHOW CURSORS lists the open cursor %s as closed%s", name, e.tail())
+					}
+					if ent.rows != cm.ln() {
+						return o, fw.V("show_cursors_rows", "SHOW CURSORS: %s has %d rows; the view retrieved at OPEN has %d (%d data changes since)%s", name, ent.rows, cm.ln(), cm.dml, e.tail())
+					}
+					var keep []int
+					switch ent.ptr {
+					case "UNKNOWN":
+						if cm.fetched != fYes {
+							keep = cm.ptrs
+							cm.fetched = fNo
+						}
+					case "Out of Range":
+						if cm.fetched != fNo {
+							for _, p := range cm.ptrs {
+								if !cm.inRange(p) {
+									keep = append(keep, p)
+								}
+							}
+						}
+					default:
+						k, err := strconv.Atoi(strings.ReplaceAll(ent.ptr, ",", ""))
+						if err != nil {
+							return o, fw.Harness("SHOW CURSORS: pointer %q%s", ent.ptr, e.tail())
+						}
+						if cm.fetched != fNo {
+							for _, p := range cm.ptrs {
+								if p == k && cm.inRange(p) {
+									keep = append(keep, p)
+								}
+							}
+						}
+					}
+					if len(keep) == 0 {
+						return o, fw.V("show_cursors_pointer", "SHOW CURSORS: pointer of %s is %s; the model has the pointer in %v over %d rows, fetched=%s%s", name, ent.ptr, cm.ptrs, cm.ln(), []string{"no", "yes", "maybe"}[cm.fetched], e.tail())
+					}
+					if ent.ptr != "UNKNOWN" {
+						cm.fetched = fYes
+					}
+					cm.ptrs = keep
+					switch ent.ptr {
+					case "UNKNOWN", "Out of Range":
+						class("show:open:" + ent.ptr)
+					default:
+						class("show:open:position")
+					}
+				}
+			}
+			tok("Z")
 
 		case "dispvar":
 			// DISPOSE of a variable that a FETCH may have bound to the value objects of a snapshot row
@@ -1954,7 +2238,13 @@ func checkHist(c histCase) (fw.Outcome, *fw.Violation) {
 		}
 	}
 
-	if nontrivDML || nontrivExc {
+	if heldCur != "" {
+		if v := checkHeld("at the end of the history"); v != nil {
+			return o, v
+		}
+	}
+
+	if nontrivDML || nontrivExc || nontrivHeld {
 		o.Fingerprint = strings.Join(toks, "")
 	}
 	return o, nil
@@ -1962,9 +2252,9 @@ func checkHist(c histCase) (fw.Outcome, *fw.Violation) {
 
 func TestC16CursorHistory(t *testing.T) {
 	fw.Run(t, fw.Spec[histCase]{
-		ID: "C16", Name: "cursor_history", Quick: 30000, Thorough: 600000,
+		ID: "C16", Name: "cursor_history", Quick: 24000, Thorough: 400000,
 		Gen: genCase, Check: checkHist,
-		Rule: "a table t (CSV file with text cells or temporary table with integer ids, 0-6 rows) and a history of 4-31 operations on two cursors generated up front: DECLARE (14 queries incl. ORDER BY, LIMIT, variable, self-join, FROM-subquery, computed integer/float columns, and four that fail for some table states: division by zero in the select list / in WHERE, scalar subquery with too many records, a table u that may not exist; 3 prepared statements incl. SELECT ... INTO), OPEN [USING none/one/two values], FETCH in all six positions with offsets -9..9 (9% of the undirected ABSOLUTE/RELATIVE fetches: literals around +-2^31, +-2^62 and +-(2^63-1)) given as literal, variable (also one filled by an earlier FETCH) or expression, the same FETCH statement repeated inside a WHILE loop with integer arithmetic in between, CLOSE, DISPOSE, WHILE IN (VAR, BREAK, DML in the body; bodies that DISPOSE, CLOSE or CLOSE+re-OPEN the loop cursor in some iteration, directly or in a nested IF: every iteration fetches from what the name refers to then; an inner cursor of the same name declared in a nested block, looped over and disposed in the body, after which the name means the outer cursor), DISPOSE of the variables a FETCH filled followed by value-creating expressions (concatenation, string functions, arithmetic in SET/PRINT/SELECT) and re-reads of the same row, IS [NOT] OPEN / IS [NOT] IN RANGE / COUNT via SELECT or PRINT, INSERT/UPDATE/DELETE/COMMIT/ROLLBACK and ALTER TABLE DROP/ADD/RENAME on t, creation/disposal of u, integer-allocating statements; executed statement by statement on one session next to a model {declared, open, snapshot, pointer set, fetched}. OPEN must fail exactly when the cursor's own query (run as a statement, resp. EXECUTE of the prepared statement with the same values, immediately before or after) fails; after a failed OPEN the cursor is closed (IS OPEN FALSE, then whatever the history does next: FETCH/COUNT/IS IN RANGE raise 11003, a later OPEN snapshots the current table); after a successful one the snapshot is that reference result with value types; every cursor still open at the end is re-listed by FETCH ABSOLUTE 0..len and compared with it. Non-trivial = a data change between OPEN and a later in-range fetch, or a relative fetch after the pointer left the view; distinct by the compressed operation/outcome sequence",
+		Rule: "a table t (CSV file with text cells or temporary table with integer ids, 0-6 rows) and a history of 4-31 operations on two cursors generated up front: DECLARE (14 queries incl. ORDER BY, LIMIT, variable, self-join, FROM-subquery, computed integer/float columns, and four that fail for some table states: division by zero in the select list / in WHERE, scalar subquery with too many records, a table u that may not exist; 3 prepared statements incl. SELECT ... INTO), OPEN [USING none/one/two values], FETCH in all six positions with offsets -9..9 (9% of the undirected ABSOLUTE/RELATIVE fetches: literals around +-2^31, +-2^62 and +-(2^63-1)) given as literal, variable (also one filled by an earlier FETCH) or expression, the same FETCH statement repeated inside a WHILE loop with integer arithmetic in between, CLOSE, DISPOSE, WHILE IN (VAR, BREAK, DML in the body; bodies that DISPOSE, CLOSE or CLOSE+re-OPEN the loop cursor in some iteration, directly or in a nested IF: every iteration fetches from what the name refers to then; an inner cursor of the same name declared in a nested block, looped over and disposed in the body, after which the name means the outer cursor), DISPOSE of the variables a FETCH filled followed by value-creating expressions (concatenation, string functions, arithmetic in SET/PRINT/SELECT) and re-reads of the same row, IS [NOT] OPEN / IS [NOT] IN RANGE / COUNT via SELECT or PRINT, SHOW CURSORS (every declared cursor and no other is listed; Closed, or Open with the number of rows of the snapshot and the pointer: UNKNOWN before the first fetch, Out of Range, or exactly the position of the model), FETCH into holder variables that nothing else assigns, read back after the cursor was moved, closed, disposed or opened anew, after data changes and value-creating statements and at the end of the history (they must still hold the fetched row), every statement spelling the cursor name on its own (30%: other character case and/or enclosed in grave accents: identifiers are case-insensitive), 40% of the huge offsets written as float literals beyond the 64-bit integer range (+-2^63, +-9.3e18, +-1e19, +-1e30, +-1.5e300: refused as not an integer, or the pointer goes beyond the end the sign points to), INSERT/UPDATE/DELETE/COMMIT/ROLLBACK and ALTER TABLE DROP/ADD/RENAME on t, creation/disposal of u, integer-allocating statements; executed statement by statement on one session next to a model {declared, open, snapshot, pointer set, fetched}. OPEN must fail exactly when the cursor's own query (run as a statement, resp. EXECUTE of the prepared statement with the same values, immediately before or after) fails; after a failed OPEN the cursor is closed (IS OPEN FALSE, then whatever the history does next: FETCH/COUNT/IS IN RANGE raise 11003, a later OPEN snapshots the current table); after a successful one the snapshot is that reference result with value types; every cursor still open at the end is re-listed by FETCH ABSOLUTE 0..len and compared with it. Non-trivial = a data change between OPEN and a later in-range fetch, or a relative fetch after the pointer left the view, or a fetched row read back from the holder variables after its cursor was closed, disposed or opened anew; distinct by the compressed operation/outcome sequence",
 		Assumptions: []string{
 			"variables after an out-of-range fetch: NULL (manual) and unchanged (implementation) are both admitted, record data is not",
 			"after a WHILE IN that ran to the end the pointer may be on the last record (literal reading of control-flow.md) or past it (FETCH NEXT semantics); the model keeps both until an observation decides",
@@ -1977,6 +2267,9 @@ func TestC16CursorHistory(t *testing.T) {
 			"value.VerifPoison (verif build) is switched on: every value handed to value.Discard is overwritten with a poison value, so a premature Discard of a value a snapshot still refers to is seen at the next read instead of depending on pool reuse",
 			"WHILE IN loops whose body changes the loop cursor, and shadowing loops, are left out while the model does not know the pointer exactly (right after a completed WHILE IN)",
 			"the row order of an unordered SELECT over one small table at CPU 1 is the same in two consecutive evaluations",
+			"SHOW CURSORS prints per cursor a line with its name followed by 'Status: Closed' or 'Status: Open  Number of Rows: n  Pointer: UNKNOWN | Out of Range | p' where p counts like FETCH ABSOLUTE (0 = first record); the layout is not documented, an output the check cannot read is a harness error (inconclusive), not a violation",
+			"a variable keeps the value a FETCH stored in it until it is assigned again, whatever happens to the cursor afterwards",
+			"the offset of FETCH ABSOLUTE/RELATIVE is documented as an integer and the conversion float -> integer as NULL, csvq truncates floats: for a float beyond the integer range both the refusal (11008, nothing delivered, pointer unchanged) and a position beyond the end of the view the sign points to are accepted; floats inside the integer range stay left out",
 		},
 	})
 }
